@@ -84,6 +84,8 @@ struct Case {
     int dxn, sxn;
 };
 
+/* explicit content bytes F0..F3 of a wide operand stand for characters with a multi-character case folding */
+static inline unsigned long widen_x(unsigned char b) { return b == 0xF0 ? 0x390 : b == 0xF1 ? 0x3B0 : b == 0xF2 ? 0xDF : b == 0xF3 ? 0xFB03 : b; }
 #define MAXE 320      /* max elements of an ordinary operand in the lattice */
 
 struct Ctx {
